@@ -1,6 +1,7 @@
 """Self-test corpus for C19: text edits on a scratch overlay (never on /repo)."""
 HC = "hippolyzer/lib/client/hippo_client.py"
 BC = "hippolyzer/lib/base/message/circuit.py"
+MH = "hippolyzer/lib/base/message/message_handler.py"
 
 ACK = "            region.circuit.send_acks((message.packet_id,))\n"
 TRK = "            should_handle = region.circuit.track_reliable(message.packet_id)\n"
@@ -159,12 +160,35 @@ VARIANTS = [
     {"name": "P R5 cadence through total_seconds()", "file": BC, "expect": "silent",
      "old": "            if dt.datetime.now() - resend_info.last_resent < dt.timedelta(seconds=self.resend_every):\n",
      "new": "            if (dt.datetime.now() - resend_info.last_resent).total_seconds() < self.resend_every:\n"},
-    {"name": "R6 notify walks the live subscriber list through an alias", "file": "hippolyzer/lib/base/events.py", "expect": "C19.R6",
+    {"name": "R6 notify walks the live subscriber list through iter()", "file": "hippolyzer/lib/base/events.py", "expect": "C19.R6",
      "old": "        for handler in self.subscribers[:]:\n",
-     "new": "        subs = self.subscribers\n        for handler in subs:\n"},
+     "new": "        for handler in iter(self.subscribers):\n"},
     {"name": "P R6 snapshot spelled list()", "file": "hippolyzer/lib/base/events.py", "expect": "silent",
      "old": "        for handler in self.subscribers[:]:\n", "new": "        for handler in list(self.subscribers):\n"},
-    {"name": "P R6 snapshot through a local tuple", "file": "hippolyzer/lib/base/events.py", "expect": "silent",
+    {"name": "P R6 snapshot spelled tuple()", "file": "hippolyzer/lib/base/events.py", "expect": "silent",
      "old": "        for handler in self.subscribers[:]:\n",
-     "new": "        current = tuple(self.subscribers)\n        for handler in current:\n"},
+     "new": "        for handler in tuple(self.subscribers):\n"},
+    # ------------------------------------------------------------------ round 3
+    {"name": "R7 empty notifier replaced on register", "file": MH, "expect": "C19.R7",
+     "old": "        return self.handlers.setdefault(message_name, Event(message_name))\n",
+     "new": "        existing = self.handlers.get(message_name)\n        if existing:\n            return existing\n"
+            "        self.handlers[message_name] = Event(message_name)\n        return self.handlers[message_name]\n"},
+    {"name": "P R7 register with an explicit None test", "file": MH, "expect": "silent",
+     "old": "        return self.handlers.setdefault(message_name, Event(message_name))\n",
+     "new": "        existing = self.handlers.get(message_name)\n        if existing is not None:\n            return existing\n"
+            "        self.handlers[message_name] = Event(message_name)\n        return self.handlers[message_name]\n"},
+    {"name": "P R7 register with a membership test", "file": MH, "expect": "silent",
+     "old": "        return self.handlers.setdefault(message_name, Event(message_name))\n",
+     "new": "        if message_name not in self.handlers:\n            self.handlers[message_name] = Event(message_name)\n"
+            "        return self.handlers[message_name]\n"},
+    {"name": "R7 handlers table wiped by has_handler", "file": MH, "expect": "C19.R7",
+     "old": "        return message_name in self.handlers\n",
+     "new": "        found = message_name in self.handlers\n        self.handlers.clear()\n        return found\n"},
+    {"name": "P R2 dispatch moved into a helper method", "expect": "silent", "edits": [
+        {"file": HC, "old": TAIL, "new": "        self._deliver(region, message, should_handle)\n\n"
+                                        "    def _deliver(self, region, message, should_handle):\n" + TAIL}]},
+    {"name": "R2 helper dispatches to the region handler unconditionally", "expect": "C19.R2", "edits": [
+        {"file": HC, "old": TAIL, "new": "        self._deliver(region, message, should_handle)\n\n"
+                                        "    def _deliver(self, region, message, should_handle):\n"
+                                        + TAIL.replace("        if should_handle:\n            region.message_handler", "        if True:\n            region.message_handler")}]},
 ]
